@@ -160,6 +160,11 @@ func (d *Inconclusive) Error() string { return fmt.Sprintf("inconclusive: %s: %v
 // set by the harness from the instrumentation report.
 var TimerSites int
 
+// GoSites is the number of go statements the instrumenter rewrote in the code
+// under test (rule R6); set by the harness. Sequential engines run their
+// operations under a simulation only when it is non-zero.
+var GoSites int
+
 // StepLimit is returned by Run when the step budget is exhausted.
 type StepLimit struct{ Steps int }
 
